@@ -43,14 +43,16 @@ TIERS = {
     "quick": {
         "top": dict(MAXFILES=0, PERMUTE="FALSE", TOPKINDS='{"absent","py","so","ns","init","initpyi","initboth","pkgutil","initpy"}', P3KINDS='{"py","init"}', PTHFORMS='{"abs","rel"}', DROP="{}"),
         "sub": dict(MAXFILES=3, PERMUTE="TRUE", TOPKINDS="{}", P3KINDS="{}", PTHFORMS='{"abs"}', DROP="{}"),
-        "ns": dict(MAXFILES=2, PERMUTE="TRUE", TOPKINDS="{}", P3KINDS="{}", PTHFORMS='{"abs"}', DROP='{"y.py"}'),
+        "ns": dict(MAXFILES=2, PERMUTE="TRUE", TOPKINDS="{}", P3KINDS="{}", PTHFORMS='{"abs"}', DROP='{"y.py", "n.py"}'),
         "stubs": dict(MAXFILES=1, PERMUTE="FALSE", TOPKINDS='{"absent","py","init","ns"}', P3KINDS="{}", PTHFORMS='{"abs"}', DROP="{}"),
+        "ext": dict(MAXFILES=3, PERMUTE="TRUE", TOPKINDS="{}", P3KINDS="{}", PTHFORMS='{"abs"}', DROP="{}"),
     },
     "thorough": {
         "top": dict(MAXFILES=0, PERMUTE="TRUE", TOPKINDS=ALL_TOP, P3KINDS='{"py","so","ns","init","initpyi","pkgutil"}', PTHFORMS='{"abs","rel"}', DROP="{}"),
         "sub": dict(MAXFILES=4, PERMUTE="TRUE", TOPKINDS="{}", P3KINDS="{}", PTHFORMS='{"abs"}', DROP="{}"),
         "ns": dict(MAXFILES=3, PERMUTE="TRUE", TOPKINDS="{}", P3KINDS="{}", PTHFORMS='{"abs"}', DROP="{}"),
         "stubs": dict(MAXFILES=2, PERMUTE="TRUE", TOPKINDS='{"absent","py","init","initboth","ns"}', P3KINDS="{}", PTHFORMS='{"abs"}', DROP="{}"),
+        "ext": dict(MAXFILES=5, PERMUTE="TRUE", TOPKINDS="{}", P3KINDS="{}", PTHFORMS='{"abs"}', DROP="{}"),
     },
 }
 EXPECTED_CAUSES = {
@@ -58,6 +60,7 @@ EXPECTED_CAUSES = {
     "sub": {"init-pyi-is-package", "file-shadows-dir", "file-and-stubbed-package"},
     "ns": {"init-pyi-is-package", "ns-dup-module", "subpackage-split"},
     "stubs": {"ns-dup-module", "stubs-namespace-misnamed"},
+    "ext": set(),        # allow_inspection=True with a real compiled sub-package: no known defect class
 }
 STUBS = "pkg-stubs"
 
@@ -163,6 +166,8 @@ def evaluate(ref: PyRef, outcome: str, tree: list) -> dict:
     by_path = {n["path"]: n for n in tree}
     # V_LoadedImportable
     for n in tree:
+        if "__pycache__" in n["path"]:
+            bad.setdefault("loaded-importable", f"{'.'.join(n['path'])} loaded out of a bytecode cache directory ({show(n['files'])})")
         if not node_ok(ref, n):
             bad.setdefault("loaded-importable", f"{'.'.join(n['path'])} loaded from {show(n['files'])} but CPython resolves that name to {show_r(ref.imp_of(n['path']))}")
     # V_WalkerLoaded
@@ -324,7 +329,7 @@ def check_chunk(args) -> dict:
             rr = []
             extra = set()
             for case in group["cases"]:
-                real = fs.run_griffe(griffe, lay, listing_of(case), request_of(case), find_stubs=bool(case.get("stubs")), flip=flip_of(case))
+                real = fs.run_griffe(griffe, lay, listing_of(case), request_of(case), find_stubs=bool(case.get("stubs")), flip=flip_of(case), inspect=bool(case.get("inspect")))
                 if real["outcome"].startswith("NotInCollection:"):
                     real["outcome"] = "KeyError"      # the package was loaded under another name: load() raised KeyError('pkg')
                 rr.append(real)
@@ -438,7 +443,7 @@ def unroot(text, lay: fs.Layout):
 def slim(case: dict | None) -> dict | None:
     if case is None:
         return None
-    return {k: case.get(k, "both") if k == "given" else case[k] for k in ("fam", "stubs", "files", "pth", "pthform", "given", "request", "iscanon", "listing", "impl", "py", "viol", "causes")}
+    return {k: case.get(k, "both") if k == "given" else case[k] for k in ("fam", "stubs", "files", "pth", "pthform", "given", "request", "iscanon", "listing", "impl", "py", "viol", "causes")} | {"inspect": bool(case.get("inspect"))}
 
 
 def ident(case: dict) -> str:
@@ -530,14 +535,15 @@ def main(tier: str, replay: str | None = None):
     nproc = 6 if tier == "quick" else 8
     rnd = random.Random(SEED)
     run.exhaustive = True
-    order = sorted(params, key=lambda f: ("stubs", "top", "sub", "ns").index(f))
+    order = sorted(params, key=lambda f: ("ext", "stubs", "top", "sub", "ns").index(f))
     # at most len(params) + 1 concurrent JVMs (tlc.run takes one of the machine-wide TLC slots per run): the check runs
     # in parallel, the short defect runs (they stop at the first violation) one after the other on a single thread
     with ThreadPoolExecutor(max_workers=len(params)) as pool, ThreadPoolExecutor(max_workers=1) as dpool:
         for fam in order:
             consts = params[fam]
             jobs["check", fam] = pool.submit(tlc.run, "Finder", "Finder_check.cfg", workers=nworkers, constants=dict(consts, FAMILY=fam), timeout=7000, heap="2g")
-            jobs["defect", fam] = dpool.submit(tlc.run, "Finder", "Finder_defect.cfg", workers=1, constants=dict(consts, FAMILY=fam), timeout=7000, heap="1g", dump_trace=True)
+            if EXPECTED_CAUSES[fam]:
+                jobs["defect", fam] = dpool.submit(tlc.run, "Finder", "Finder_defect.cfg", workers=1, constants=dict(consts, FAMILY=fam), timeout=7000, heap="1g", dump_trace=True)
         # families are replayed one after the other, as soon as their TLC run is over (smallest first)
         for fam in order:
             res = jobs["check", fam].result()
@@ -566,14 +572,15 @@ def main(tier: str, replay: str | None = None):
                     g["cases"] = fixed + (rest if len(rest) <= keep else rnd.sample(rest, keep))
                 run.exhaustive = False
                 run.note(f"family {fam}: {ncases} cases enumerated; replayed every layout with all request forms and <= {keep} sampled non-canonical listings each ({sum(len(g['cases']) for g in groups)} cases)")
-            dres = jobs["defect", fam].result()
-            tlc.must(dres, allow_violations=True)
-            run.add_tlc(dres)
-            if "NoViolationAnywhere" not in dres.violated or not dres.trace:
-                die(f"C14: the defect domain of family {fam} no longer violates any clause in the model (violated={dres.violated}): recorded defects are not exhibited")
-            if [v for v in dres.violated if v != "NoViolationAnywhere"]:
-                die(f"C14: defect run of family {fam} violates {dres.violated}")
-            replay_counterexample(run, griffe, fam, dres)
+            if ("defect", fam) in jobs:
+                dres = jobs["defect", fam].result()
+                tlc.must(dres, allow_violations=True)
+                run.add_tlc(dres)
+                if "NoViolationAnywhere" not in dres.violated or not dres.trace:
+                    die(f"C14: the defect domain of family {fam} no longer violates any clause in the model (violated={dres.violated}): recorded defects are not exhibited")
+                if [v for v in dres.violated if v != "NoViolationAnywhere"]:
+                    die(f"C14: defect run of family {fam} violates {dres.violated}")
+                replay_counterexample(run, griffe, fam, dres)
             # replay on the real code, in parallel worker processes
             groups.sort(key=lambda g: json.dumps(g["layout"], sort_keys=True))
             rnd.shuffle(groups)
